@@ -133,6 +133,13 @@ CLAIMED["C15"] = {
     "technique": "contract-based deductive verification: relational (twin) run of the real fitting code + correspondence lemmas over the spec functions; equivariance of membership / ranges derived from the exactness contracts",
 }
 
+CLAIMED["C11"] = {
+    "text": "The real lsq_linear_decomposition runs symbolically against the solver contract with scikit-learn's NMF as a havoc non-negative initialisation and the alternating loop unrolled for max_iter = 2 (every exit test forked): the returned X is within the source bounds, zero where the mask forbids a source, with equal layer totals when requested; the returned P within [0, 1]; pred == P X A'^T + baseline'; error after iteration 2 <= error after iteration 1 (X-step and P-step each by instantiating the minimiser fact at the previous iterate -- with a havoc start this is the generic inductive step of the descent property) and the final refit does not increase it; the finally refitted X is globally optimal given the returned P (Skolem competitor); the only randomness is NMF(random_state=seed); fit_decomposition passes state and every option.",
+    "design_ref": "DESIGN.md section 6 C11",
+    "note": SOLVER_NOTE + " NMF is assumed to return some non-negative non-zero matrix determined by (data, random_state); 'same seed, same result' then rests on the solver contract's 'same data, same point' and is additionally checked natively (bounded). Two unrolled iterations; 1-2 layers, 2x2 systems, m = 2 quick; up to 3 layers / 3 sources thorough; subsampling is covered by the native stand-in only.",
+    "technique": "contract-based deductive verification: unrolled alternating loop as inductive step, optimality transfer by ghost instantiation of the solver contract at the previous iterate",
+}
+
 NOT_APPLICABLE = {}
 
 FIX_COMMITS = ["b2d156a (np.trapz -> trapezoid)", "1caec1a (negative fit targets no longer declared positive cvxpy parameters)", "f3b37fa (batched_iteration bs > n)", "b98cd56 (poisson baseline tiling)", "d30d941 (minimize .copy())", "35d91a0 (minimize reshape order)", "b90b02d (minimize padded slack)", "7019c2d (excitation baseline)", "3901923 (excitation per-sample)", "b370f4e (adaptive default solver)", "cef6319 (gamut apex = capture at lb)", "f990a92 (hull_dist_scaling forwards relative)", "3b5a1c6 (dichromat chromatic membership)", "be7bf4f (math.factorial in sample_in_hull)"]
